@@ -14,6 +14,8 @@ import ReqVerif.Model.Repos
 import ReqVerif.Model.Cache
 import ReqVerif.Model.SolutionText
 import ReqVerif.Model.BazelLoader
+import ReqVerif.Model.Patch
+import ReqVerif.Generated
 /-!
 rvdriver: line protocol between the Python harness and the executable models.
 One JSON object per input line (`{"op": ..., ...}`), one JSON value per output line.
@@ -334,6 +336,42 @@ def opLoadBazel (j : Json) : Json :=
                   ("whl", match e.loc with | .whl l => Json.str (str l) | .url _ => Json.null),
                   ("deps", jsonStrs ((BZ.depsOf es e.package).map str))]).toArray)]
 
+/-! ### substitution discipline (C13) -/
+
+def opPatchRun (j : Json) : Json :=
+  let sites : List PT.Site := (jArr j "sites").map fun x => { key := jNat x "key", present := jBool x "present", new := jNat x "new" }
+  let env : PT.Env := (jArr j "env").map fun x => (jNat x "k", jNat x "v")
+  let ops : List PT.Op := (jArr j "ops").map fun x =>
+    if jStr x "op" == "del" then PT.Op.del (jNat x "k") else PT.Op.set (jNat x "k") (jNat x "v")
+  match PT.patchRun sites (fun e => ops.foldl PT.runOp e) env with
+  | none => Json.mkObj [("error", Json.bool true)]
+  | some e => Json.mkObj [("env", Json.arr (e.map fun p => Json.arr #[Json.num (JsonNumber.fromNat p.1), Json.num (JsonNumber.fromNat p.2)]).toArray)]
+
+def skelOf (name : String) : Option (PT.Stmt × List String × List String) :=
+  match name with
+  | "_parse_setup_py" => some (Gen.skel_parse_setup_py, Gen.skelRes_parse_setup_py, Gen.patchSites_parse_setup_py)
+  | "_fetch_from_setup_py" => some (Gen.skel_fetch_from_setup_py, Gen.skelRes_fetch_from_setup_py, Gen.patchSites_fetch_from_setup_py)
+  | "_build_egg_info" => some (Gen.skel_build_egg_info, Gen.skelRes_build_egg_info, Gen.patchSites_build_egg_info)
+  | "_build_wheel" => some (Gen.skel_build_wheel, Gen.skelRes_build_wheel, Gen.patchSites_build_wheel)
+  | "_fetch_from_source" => some (Gen.skel_fetch_from_source, Gen.skelRes_fetch_from_source, Gen.patchSites_fetch_from_source)
+  | _ => none
+
+/-- run a regenerated skeleton under a given oracle; report the exit, what is still held, and everything the
+skeleton can ever hold (its resource table) -/
+def opSkeleton (j : Json) : Json :=
+  match skelOf (jStr j "fn") with
+  | none => Json.mkObj [("bad-fn", jStr j "fn")]
+  | some (st, res, sites) =>
+    let oracle := (jArr j "oracle").filterMap fun x => x.getBool?.toOption
+    let r := PT.exec st oracle []
+    let nm := fun (i : Nat) => res.getD i "?"
+    Json.mkObj [("exit", match r.1 with | .norm => "norm" | .exc => "exc" | .ret => "ret"),
+                ("held", jsonStrs (r.2.1.map nm)),
+                ("resources", jsonStrs (res.drop 1)),
+                ("resources_outer", jsonStrs (Gen.skelRes_fetch_from_setup_py.drop 1)),
+                ("sites", jsonStrs sites),
+                ("all_exits_held", Json.arr ((PT.outcomes st []).map fun p => jsonStrs (p.2.map nm)).toArray)]
+
 def dispatch (op : String) (j : Json) : Json :=
   match op with
   | "merge" => opMerge j
@@ -352,6 +390,8 @@ def dispatch (op : String) (j : Json) : Json :=
   | "write-solution" => opWriteSolution j
   | "load-solution" => opLoadSolution j
   | "load-bazel" => opLoadBazel j
+  | "patch-run" => opPatchRun j
+  | "skeleton" => opSkeleton j
   | "scan-page" => opScanPage j
   | "requires-python" => opRequiresPython j
   | "wheel-name" => opWheelName j
